@@ -383,6 +383,10 @@ func helloFor(cfg *SessCfg) *wamp.Hello {
 	for role, feats := range cfg.Roles {
 		fd := wamp.Dict{}
 		for _, f := range feats {
+			if strings.HasPrefix(f, "!") {
+				fd[f[1:]] = false // a feature listed as false is not announced
+				continue
+			}
 			fd[f] = true
 		}
 		roles[role] = wamp.Dict{"features": fd}
